@@ -45,6 +45,7 @@ type config struct {
 	SolverLog  string
 	CrossCheck string
 	Internal   bool
+	JobTimeoutS int
 }
 
 var cfg config
@@ -526,6 +527,10 @@ func runJob(j job) *jobResult {
 				break
 			}
 		}
+		if cfg.JobTimeoutS > 0 && time.Since(t0) > time.Duration(cfg.JobTimeoutS)*time.Second {
+			inconclusive(fmt.Sprintf("job time budget (%d s) exhausted after %d paths", cfg.JobTimeoutS, res.Paths))
+			break
+		}
 		if len(top.items) > 2_000_000 {
 			inconclusive("work list budget exhausted")
 			break
@@ -780,6 +785,7 @@ func main() {
 	flag.BoolVar(&cfg.Verbose, "v", false, "verbose")
 	flag.StringVar(&cfg.Overlays, "overlay", "", "extra source overlays virtual=real,...")
 	flag.BoolVar(&cfg.Internal, "internal", false, "also load the harnesses that use library internals (harness/spdxexp_internal)")
+	flag.IntVar(&cfg.JobTimeoutS, "jobtimeout", 1200, "wall-clock budget per job in seconds (0 = none); exceeding it is inconclusive")
 	flag.StringVar(&cfg.SolverLog, "solverlog", "", "dump solver input")
 	cpuprof := flag.String("cpuprofile", "", "write a CPU profile")
 	listFuncs := flag.Bool("funcs", false, "print the functions reachable from the exported API and exit")
